@@ -1,4 +1,5 @@
 import PetgraphModel.Common
+import PetgraphModel.Driver.C02
 import PetgraphModel.Driver.C01
 import PetgraphModel.Driver.C17
 import PetgraphModel.Driver.C10
@@ -43,4 +44,5 @@ def main (args : List String) : IO UInt32 := do
   | ["C10"] => driverLoop inp out C10.step {}; return 0
   | ["C17"] => driverLoop inp out C17.step {}; return 0
   | ["C01"] => driverLoop inp out C01.step {}; return 0
+  | ["C02"] => driverLoop inp out C02.step {}; return 0
   | _ => IO.eprintln "usage: pgmodel <property id>  (protocol lines on stdin)"; return 2
